@@ -117,6 +117,24 @@ theorem rec_after_deleteAll {s s' : State} {ds : List Nat}
   · simp [hj] at h
   · simpa [hj] using h
 
+theorem dropUnused_keeps {s s' : State} {id : Nat} (hI : Inv s) (hN : NoDangling s)
+    (h : runCmd s (.dropUnused id) = .ok s') : Inv s' ∧ NoDangling s' := by
+  simp only [runCmd] at h
+  split at h
+  · injection h with h; subst h; exact ⟨hI, hN⟩
+  · split at h
+    · rename_i hchk
+      obtain ⟨hI', hD, hT⟩ := deleteAll_char _ hI h
+      refine ⟨hI', ?_⟩
+      intro j c d f t hrec hf ht
+      obtain ⟨hj, hrec0⟩ := rec_after_deleteAll hD hT hrec
+      have htd : t ∉ [id] := fun htd => hj (drop_guard hI hchk hrec0 hf ht htd)
+      have := hN j c d f t hrec0 hf ht
+      unfold present at this ⊢
+      rw [hD t]
+      simpa [htd] using this
+    · injection h with h; subst h; exact ⟨hI, hN⟩
+
 theorem runCmd_keeps {s s' : State} {cmd : Cmd} (hI : Inv s) (hN : NoDangling s)
     (h : runCmd s cmd = .ok s') : Inv s' ∧ NoDangling s' := by
   cases cmd with
@@ -217,6 +235,53 @@ theorem runCmd_keeps {s s' : State} {cmd : Cmd} (hI : Inv s) (hN : NoDangling s)
         rw [hD t]
         simpa [htd] using this
       · cases h
+  | dropUnused id => exact dropUnused_keeps hI hN h
+
+/-- the conditional drop never collects an object that another object still refers to -/
+theorem dropUnused_keeps_used {s : State} {id j : Nat} {c : Cls} {d : List Val} {f : Nat} (hI : Inv s)
+    (hj : j ≠ id) (hrec : Rec s j c d) (hf : f ∈ c.refIdxs) (ht : id ∈ refsAt c f d) :
+    runCmd s (.dropUnused id) = .ok s := by
+  simp only [runCmd]
+  split
+  · rfl
+  · split
+    · rename_i hchk
+      exact absurd (by simpa using drop_guard hI hchk hrec hf ht (List.mem_singleton.2 rfl)) hj
+    · rfl
+
+/-- … and when it does collect, the object is gone from every index -/
+theorem dropUnused_unreachable {s s' : State} {id : Nat} (hI : Inv s)
+    (h : runCmd s (.dropUnused id) = .ok s') : s' = s ∨ Unreachable s' id := by
+  simp only [runCmd] at h
+  split at h
+  · injection h with h; exact Or.inl h.symm
+  · split at h
+    · rename_i hchk
+      right
+      obtain ⟨hI', hD, hT⟩ := deleteAll_char _ hI h
+      have hd : mget s'.idToData id = none := by rw [hD]; simp
+      have ht : mget s'.idToType id = none := by rw [hT]; simp
+      have norec : ∀ c d, ¬ Rec s' id c d := by
+        rintro c d ⟨h1, _⟩; rw [ht] at h1; cases h1
+      refine ⟨hd, ht, ?_, ?_, ?_, ?_, ?_⟩
+      · intro n hn
+        obtain ⟨c, d, hrec, _⟩ := hI'.names.q_name n id hn
+        exact norec c d hrec
+      · rintro ⟨c, n⟩ hn
+        obtain ⟨d, hrec, _⟩ := hI'.names.g_name c n id hn
+        exact norec c d hrec
+      · intro c n hn
+        obtain ⟨d, _, hrec, _⟩ := hI'.names.s_name c n id hn
+        exact norec c d hrec
+      · intro e he hsrc
+        obtain ⟨d, hrec, _⟩ := (hI'.refs e).1 he
+        rw [hsrc] at hrec
+        exact norec _ d hrec
+      · intro e he htgt
+        obtain ⟨d, hrec, hf, ht'⟩ := (hI'.refs e).1 he
+        obtain ⟨hj, hrec0⟩ := rec_after_deleteAll hD hT hrec
+        exact hj (drop_guard hI hchk hrec0 hf ht' (htgt ▸ List.mem_singleton.2 rfl))
+    · injection h with h; exact Or.inl h.symm
 
 theorem applyCmd_keeps {s : State} {cmd : Cmd} (hI : Inv s) (hN : NoDangling s) :
     Inv (applyCmd s cmd).1 ∧ NoDangling (applyCmd s cmd).1 := by
